@@ -8,6 +8,9 @@
   c02close  <atol> <rtol> <a> <b>                   `np.isclose` / `fuzzy_equal` on one pair
   c02centre <k> <dim> v…                            cell centre of k corner rows
   c02hash   <n> i…                                  CPython tuple hash
+  c02relabel <fields f> <n> ρ… <k> (<n> κ…)*k <fields g>   `Spec.relabelF ρ κ f` (κ per block of f) compared
+                                                    with the harness's relabelling `g`; hypothesis and
+                                                    conclusions of the phase-2 theorems evaluated
 
   `argsort` is instantiated twice (stable merge sort; the same with reversed tie order);
   `tie=1` says that both instantiations gave the same observable.
@@ -130,6 +133,32 @@ def opHash : P String := do
   let is ← pList pNat
   pure s!"hyp=1 model={pyTupleHash is} spec=-"
 
+/-- `hyp` = `Spec.baseHyp` ∧ `ρ`, `κ` are permutations (hypotheses of `C02_sort_canonical` /
+    `C02_no_false_fail_noise_free_partial`); `model` = does `Spec.relabelF` produce the harness's data
+    set; `canon` = both sorts succeed and agree (two argsorts); `rigid` = the remaining hypothesis
+    `hrigid` in both roles; `cont` = `Spec.continuousHyp` (no coincident points: `hrigid` is then a theorem);
+    `pass` = the ladder passes in both roles (two argsorts) -/
+def opRelabel : P String := do
+  let f ← pMeshFields
+  let ρ ← pList pNat
+  let κs ← pList (pList pNat)
+  let g ← pMeshFields
+  let κ : String → List Nat := fun ct => ((f.mesh.cellTypes.zip κs).lookup ct).getD []
+  let x := Spec.relabelF ρ κ f
+  let t := meshTolOf f.mesh
+  let idp := List.range f.mesh.points.length
+  let mapsOk := ρ.isPerm idp && decide (κs.length = f.mesh.cells.length) &&
+    f.mesh.cells.all fun b => (κ b.1).isPerm (List.range b.2.length)
+  let hyp := Spec.baseHyp pyTupleHash f && mapsOk
+  let canon := match sortMesh argsortStable pyTupleHash (meshTolOf x.mesh) x, sortMesh argsortRevTies pyTupleHash t f with
+    | some a, some b => decide (a = b)
+    | _, _ => false
+  let rigid := (!meshEqual t x.mesh f.mesh || ρ == idp) && (!meshEqual t f.mesh x.mesh || ρ == idp)
+  let pass := Spec.ladderPasses (ladder argsortStable argsortRevTies pyTupleHash {} x f) &&
+    Spec.ladderPasses (ladder argsortRevTies argsortStable pyTupleHash {} f x)
+  let cont := Spec.continuousHyp f
+  pure s!"hyp={showBool hyp} model={showBool (decide (x = g))} canon={showBool canon} rigid={showBool rigid} cont={showBool cont} pass={showBool pass} spec=-"
+
 def handleC02 (op : String) : Option (P String) :=
   match op with
   | "c02sort" => some opSort
@@ -139,6 +168,7 @@ def handleC02 (op : String) : Option (P String) :=
   | "c02close" => some opClose
   | "c02centre" => some opCentre
   | "c02hash" => some opHash
+  | "c02relabel" => some opRelabel
   | _ => none
 
 end Fc.Drv.C02
